@@ -16,7 +16,11 @@ func TestDev(t *testing.T) {
 	col := NewCollector("dev", "any", func(c *CaseStats) bool { return c.has("leader.elected") })
 	defer func() {
 		t.Logf("evals=%d nontrivial=%d distinct=%d aborted=%d", col.Evaluations, col.NonTrivial, len(col.Digests), col.Aborted)
-		for _, k := range []string{"leader.elected", "commit.leader_advance", "apply.entries", "crash", "restart", "snap.accepted", "conf.applied", "panic", "read.answered", "log.tail_overwritten"} {
+		keys := []string{"leader.elected", "commit.leader_advance", "apply.entries", "crash", "restart", "snap.accepted", "conf.applied", "panic", "read.answered", "log.tail_overwritten"}
+		if e := os.Getenv("STATS"); e != "" {
+			keys = strings.Split(e, ",")
+		}
+		for _, k := range keys {
 			t.Logf("  %-28s total=%d cases=%d", k, col.Classes[k], col.CasesWith[k])
 		}
 	}()
